@@ -30,6 +30,7 @@ def run(chk: Check):
     groups(chk, rng)
     distreg(chk, rng)
     logging_(chk, rng)
+    node_api(chk, rng)
 
 
 VW_MC = """CONSTANTS NV = 2 NN = {nn} Kind <- Kind{nn} Names = {names} Atomic = {atomic}
@@ -178,3 +179,30 @@ def logging_(chk, rng):
     cfg = "CONSTANTS ResetAsCoded = TRUE MaxHandlers = 99\n"
     chk.tv("Trace_Logging.tla", trs, tag="logging", cfg_extra=cfg, keyfn=lambda r: f"logging:{r.conjunct}",
            describe=lambda r: str(r.trace["ev"][r.line - 1])[:400])
+
+
+def node_api(chk, rng):
+    """LieselGraph.tla: Node.update() on a single node without its precondition (G8)."""
+    import re
+    from checks.c01 import CFG, AB
+    from harness import graph_driver as GD
+    from vlib.core import run_tlc
+    cfg = CFG.format(n=3, kinds='{"v", "c"}', atoms=AB).replace("SPECIFICATION Spec", "SPECIFICATION SpecAny")
+    r = run_tlc("MC_LieselGraph.tla", cfg, tag="growth-node-update-g8", workers=1, timeout=300)
+    chk.extra["G8_as_coded_counterexample"] = r.error or "none"
+    # the shortest history of that kind on a real model: v -> c2 -> c3, assignment with auto-update off,
+    # c3.update() (reads the stale c2), full update
+    plan = [{"kind": "v", "inp": []}, {"kind": "c", "inp": [1]}, {"kind": "c", "inp": [2]}]
+    run = GD.GraphRun(plan)
+    run.header()
+    evs = [run.op(o) for o in ({"ev": "set_auto", "b": False}, {"ev": "assign", "n": 1, "x": "z9", "via_var": False},
+                               {"ev": "node_update", "n": 3}, {"ev": "update_all"})]
+    run.close()
+    last = evs[-1]
+    stale = (not last["outd"][2]) and last["val"][2] != f"f3(f2(z9))"
+    chk.extra["G8_reproduced_on_real_model"] = bool(stale)
+    chk.note("G8 (not one of the operations C01 lists): Node.update() on a single caching node whose inputs are outdated "
+             "computes from the stale inputs and reports the node up to date; a later full update skips it, so an up-to-date "
+             f"node holds a value that is not the from-scratch one (TLC with NodeUpdate unrestricted: {r.error}; on a real "
+             f"model: c3 = {last['val'][2]} after update(), outdated = {last['outd'][2]}; reproduced = {bool(stale)}). "
+             "With the precondition InputsUpToDate every C01 invariant holds (part of C01's model and traces).")
